@@ -1,2 +1,160 @@
--- stub driver, replaced by the builder of X02
-def main : IO Unit := pure ()
+import PyramidModel.Prelude
+import PyramidModel.Lemmas.SettingsSpec
+import PyramidModel.Csrf
+/-! Driver for X02: one JSON case per line.  Text t = list of code points.
+value V = null | true | false | <int> | {"s":t} | {"l":[atom,…]}      (atom = V without "l")
+in : {"op":"settings","d":[[t,V],…],"kw":[[t,V],…],"env":[[t,t],…]}
+     {"op":"asbool","v":V}          {"op":"aslist","v":V,"flatten":bool}
+     {"op":"differ","a":[byte…],"b":[byte…]}      {"op":"same_domain","host":t,"pattern":t}
+     {"op":"text","v":SB} {"op":"bytes","v":SB} {"op":"ascii","v":SB}     SB = {"s":t} | {"b":[byte…]} | {"o":n}
+     {"op":"iter","v":V}            {"op":"sorted","v":{"s":t}|{"l":[t,…]}}
+out: settings {"ok":[[t,V],…]} | {"err":"TypeError"|"KeyError"}, plus "spec": the same shape by the declarative reading,
+              "dom": inside the modelled domain
+     asbool   {"out":b}     aslist {"ok":[atom…]} | {"err":…}
+     differ   {"out":b}     same_domain {"out":b}
+     text     {"out":SB}    bytes {"ok":SB}|{"err":…}   ascii {"ok":t}|{"err":…}
+     iter     {"nonstr":b,"strorit":true|null}      sorted {"out":[t,…]} -/
+open Pyr Pyr.Settings Lean
+
+namespace DrvX02
+
+def textOf (j : Json) : Except String Settings.Text := do
+  let cs : List Nat ← fromJson? j
+  pure (cs.map Char.ofNat)
+
+def jText (t : Settings.Text) : Json := toJson (t.map Char.toNat)
+
+def atomOf (j : Json) : Except String Atom :=
+  match j with
+  | .null => pure .none
+  | .bool b => pure (.bool b)
+  | .num _ => do
+    let i : Int ← fromJson? j
+    pure (.int i)
+  | .obj _ => do pure (.str (← textOf (← getField j "s")))
+  | _ => throw "bad atom"
+
+def valOf (j : Json) : Except String Val :=
+  match j with
+  | .obj _ =>
+    match j.getObjVal? "l" with
+    | .ok (.arr xs) => do pure (.list (← xs.toList.mapM atomOf))
+    | _ => do pure (.str (← textOf (← getField j "s")))
+  | _ => do pure (← atomOf j).toVal
+
+def jAtom : Atom → Json
+  | .none => .null
+  | .bool b => .bool b
+  | .int i => toJson i
+  | .str t => Json.mkObj [("s", jText t)]
+
+def jVal : Val → Json
+  | .none => .null
+  | .bool b => .bool b
+  | .int i => toJson i
+  | .str t => Json.mkObj [("s", jText t)]
+  | .list xs => Json.mkObj [("l", Json.arr (xs.map jAtom).toArray)]
+
+def dictOf (j : Json) : Except String Dict :=
+  match j with
+  | .arr xs => xs.toList.mapM fun p =>
+    match p with
+    | .arr #[k, v] => do pure (← textOf k, ← valOf v)
+    | _ => throw "bad pair"
+  | _ => throw "expected a list of pairs"
+
+def envOf (j : Json) : Except String Env :=
+  match j with
+  | .arr xs => xs.toList.mapM fun p =>
+    match p with
+    | .arr #[k, v] => do pure (← textOf k, ← textOf v)
+    | _ => throw "bad pair"
+  | _ => throw "expected a list of pairs"
+
+def jErr : Err → Json
+  | .typeError => "TypeError"
+  | .keyError => "KeyError"
+
+def jDictRes : Except Err Dict → List (String × Json)
+  | .ok d => [("ok", Json.arr (d.map fun kv => Json.arr #[jText kv.1, jVal kv.2]).toArray)]
+  | .error e => [("err", jErr e)]
+
+def sbOf (j : Json) : Except String SB :=
+  match j.getObjVal? "s", j.getObjVal? "b", j.getObjVal? "o" with
+  | .ok t, _, _ => do pure (.str (← textOf t))
+  | _, .ok b, _ => do
+    let bs : List Nat ← fromJson? b
+    pure (.bytes (bs.map Nat.toUInt8))
+  | _, _, .ok o => do
+    let n : Nat ← fromJson? o
+    pure (.other n)
+  | _, _, _ => throw "bad SB"
+
+def jSB : SB → Json
+  | .str t => Json.mkObj [("s", jText t)]
+  | .bytes b => Json.mkObj [("b", toJson (b.map UInt8.toNat))]
+  | .other n => Json.mkObj [("o", toJson n)]
+
+def jCodecErr : CodecErr → Json
+  | .unicodeEncode => "UnicodeEncodeError"
+  | .unicodeDecode => "UnicodeDecodeError"
+  | .typeError => "TypeError"
+
+end DrvX02
+open DrvX02
+
+def main : IO Unit := jsonDriver fun j => do
+  let op : String ← getAs j "op"
+  match op with
+  | "settings" =>
+    let d ← dictOf (← getField j "d")
+    let kw ← dictOf (← getField j "kw")
+    let env ← envOf (← getField j "env")
+    let specPart := match jDictRes (specSettings table (update d kw) env) with
+      | [(k, v)] => Json.mkObj [(k, v)]
+      | _ => Json.null
+    return Json.mkObj (jDictRes (settings d kw env) ++ [("spec", specPart), ("dom", toJson (inDomain d kw env))])
+  | "asbool" =>
+    let v ← valOf (← getField j "v")
+    return Json.mkObj [("out", toJson (asbool v))]
+  | "aslist" =>
+    let v ← valOf (← getField j "v")
+    let fl : Bool ← getAs j "flatten"
+    match aslist v fl with
+    | .ok xs => return Json.mkObj [("ok", Json.arr (xs.map jAtom).toArray)]
+    | .error e => return Json.mkObj [("err", jErr e)]
+  | "differ" =>
+    let a : List Nat ← getAs j "a"
+    let b : List Nat ← getAs j "b"
+    return Json.mkObj [("out", toJson (Csrf.stringsDiffer (a.map Nat.toUInt8) (b.map Nat.toUInt8)))]
+  | "same_domain" =>
+    let h ← textOf (← getField j "host")
+    let p ← textOf (← getField j "pattern")
+    return Json.mkObj [("out", toJson (Csrf.isSameDomain h p))]
+  | "text" =>
+    let v ← sbOf (← getField j "v")
+    return Json.mkObj [("out", jSB (text_ v))]
+  | "bytes" =>
+    let v ← sbOf (← getField j "v")
+    match bytes_ v with
+    | .ok r => return Json.mkObj [("ok", jSB r)]
+    | .error e => return Json.mkObj [("err", jCodecErr e)]
+  | "ascii" =>
+    let v ← sbOf (← getField j "v")
+    match ascii_ v with
+    | .ok r => return Json.mkObj [("ok", jText r)]
+    | .error e => return Json.mkObj [("err", jCodecErr e)]
+  | "iter" =>
+    let v ← valOf (← getField j "v")
+    return Json.mkObj [("nonstr", toJson (isNonstrIter v)),
+                       ("strorit", match isStringOrIterable v with | some b => toJson b | none => Json.null)]
+  | "sorted" =>
+    let vj ← getField j "v"
+    match vj.getObjVal? "l" with
+    | .ok (.arr xs) =>
+      let ts ← xs.toList.mapM textOf
+      return Json.mkObj [("out", Json.arr ((asSortedTuple (.inr ts)).map jText).toArray)]
+    | _ =>
+      let t ← textOf (← getField vj "s")
+      return Json.mkObj [("out", Json.arr ((asSortedTuple (.inl t)).map jText).toArray)]
+  | _ => throw s!"unknown op {op}"
